@@ -1,5 +1,134 @@
-From ZV Require Import Lib.Base Model.Lines Model.Ranges.
-(* first version: pipeline bring-up; the theorems follow *)
-Theorem C02_placeholder_bringup : gather 3 [] = [{| c_fn := true; c_off := 0; c_sz := 3 |}].
+(** C02 — reported match ranges are real, ordered and complete.
+    Model: coq/Model/Ranges.v (gatherMatches, rune-offset sampling / makeRuneOffsetMap / lookup / findOffset)
+    and coq/Model/Lines.v (candidates, sortByOffsetSlice.Less, breakMatchesOnNewlines).
+    WHICH candidates an atom produces (all occurrences / engine matches, each matching at its position)
+    is the subject of C01; here it appears as the hypothesis on the candidate list. *)
+From ZV Require Import Lib.Base Lib.GoSearch Lib.RuneCount Model.Lines Model.Ranges
+  Proofs.LinesMatch Proofs.RangesGather Proofs.RangesOffsets Generated.RangesConsts.
+From Coq Require Import Sorting.Sorted Sorting.Permutation.
+
+(** gatherMatches on any non-empty candidate list (any mix of atoms, file-name and content candidates):
+    every kept range is a candidate (gather_sub); the result is ordered by sortByOffsetSlice
+    (gather_sorted: file-name ranges first, then by offset); ranges of the same class never overlap
+    (gather_nonoverlap); and nothing is dropped without reason: every dropped candidate starts inside
+    a kept range of its class (completeness) *)
+Theorem C02_gather_spec : forall nl cands, cands <> [] ->
+  let out := gather nl cands in
+  incl out cands /\ StronglySorted le_key out /\ StronglySorted class_disjoint out /\
+  (forall c, In c cands -> In c out \/ exists k, In k out /\ covers k c).
+Proof. exact gather_spec. Qed.
+Print Assumptions C02_gather_spec.
+
+(** no text atom contributed: exactly one synthetic range, the whole file name *)
+Theorem C02_gather_no_candidates : forall nl, gather nl [] = [{| c_fn := true; c_off := 0; c_sz := nl |}].
+Proof. exact gather_empty. Qed.
+Print Assumptions C02_gather_no_candidates.
+
+(** ranges in bounds: gatherMatches never invents or moves a range *)
+Theorem C02_ranges_in_bounds : forall nl cands bound, cands <> [] ->
+  Forall (fun m => c_end m <= bound) cands -> Forall (fun m => c_end m <= bound) (gather nl cands).
+Proof.
+  intros nl cands bound Hne H. destruct (gather_spec nl cands Hne) as [Hi _].
+  rewrite Forall_forall in *. intros x Hx. apply H. apply Hi. exact Hx.
+Qed.
+Print Assumptions C02_ranges_in_bounds.
+
+(** the output of gatherMatches satisfies the hypotheses of the C03 theorems (sorted by Less; content
+    ranges sorted and pairwise disjoint) *)
+Theorem C02_gather_feeds_fill : forall nl cands,
+  is_sorted_by cand_less (gather nl cands) = true /\ disjoint_sorted (filter is_content (gather nl cands)).
+Proof. exact gather_content_disjoint. Qed.
+Print Assumptions C02_gather_feeds_fill.
+
+(** single content substring: if the atom's candidates are all occurrences (C01), the reported ranges
+    are exactly the successive leftmost non-overlapping occurrences — what the scanning loop
+    `i := Index(content[from:], pat); from += i + len` yields.  [mt] abstracts the match test at a
+    position (exact bytes, or case folding with its own byte length); only mt l = Some n -> n >= 1 is used *)
+Theorem C02_substr_ranges_leftmost : forall mt, (forall l n, mt l = Some n -> 1 <= n) ->
+  forall nl content, all_occ mt content 0 <> [] ->
+  gather nl (all_occ mt content 0) = scan mt content 0 0.
+Proof. exact substr_ranges_leftmost. Qed.
+Print Assumptions C02_substr_ranges_leftmost.
+
+Theorem C02_substr_no_occurrence : forall mt nl content, all_occ mt content 0 = [] ->
+  scan mt content 0 0 = [] /\ gather nl (all_occ mt content 0) = [{| c_fn := true; c_off := 0; c_sz := nl |}].
+Proof. exact substr_no_occurrence. Qed.
+Print Assumptions C02_substr_no_occurrence.
+
+(** single regexp: the engine's matches (strictly increasing, non-overlapping, empty ones included) are
+    reported unchanged, so in chunk mode the ranges cover exactly the bytes of the non-empty matches *)
+Theorem C02_regexp_ranges_are_engine_matches : forall nl ms, ms <> [] -> engine_matches ms -> gather nl ms = ms.
+Proof. exact regexp_matches_kept. Qed.
+Print Assumptions C02_regexp_ranges_are_engine_matches.
+
+(** line mode: breakMatchesOnNewlines succeeds on in-bounds disjoint candidates; every piece is a
+    non-empty newline-free part of its candidate, order and disjointness are kept.
+    _partial: the converse inclusion (every non-newline byte of a candidate lies in a piece) is checked by
+    the Go oracle (regexp-cover in line mode) but not proved. *)
+Theorem C02_break_newlines_partial : forall c ms,
+  Forall (fun m => c_end m <= length c) ms -> disjoint_sorted ms ->
+  exists b, break_matches c ms = Ok b /\
+    Forall (fun x => piece_ok c x /\ exists m, In m ms /\ in_range (c_off m) (c_end m) x /\ c_fn x = c_fn m) b /\
+    disjoint_sorted b.
+Proof. exact break_matches_spec. Qed.
+Print Assumptions C02_break_newlines_partial.
+
+(** rune -> byte translation, table part, for EVERY list of samples and every compression:
+    lookup(makeRuneOffsetMap(samples), k*freq + left) = (samples[k], left), including offsets exactly on
+    multiples of the frequency (left = 0) — with Go's binary search.
+    _partial: "findOffset r = byte length of the first r runes" additionally needs the sampling invariant of
+    the builder and the decode loop; these are validated by the correspondence (G_samples, G_find) and the
+    Go oracle, and the two read-window defects found there are fixed in /repo, but the end-to-end
+    statement is not yet proved in Coq. *)
+Theorem C02_rune_to_byte_table_partial : forall offs k left,
+  k < length offs -> left < rune_offset_frequency ->
+  lookup rune_offset_frequency (make_map rune_offset_frequency offs) (k * rune_offset_frequency + left)
+  = (nth k offs 0, left).
+Proof. intros. apply lookup_make_map; auto. unfold rune_offset_frequency. lia. Qed.
+Print Assumptions C02_rune_to_byte_table_partial.
+
+(** the read window of findOffset must hold utf8.UTFMax bytes per rune: with the former factor 3 the
+    faithful model returns a wrong offset (76 four-byte runes, then one more rune) — the defect fixed
+    by /repo commit 9f2ff25 *)
+Definition wide_doc : list N := concat (repeat [240; 159; 152; 128]%N 76) ++ [110; 101]%N.
+Theorem C02_find_offset_window3_refuted :
+  find_offset_corpus 100 (Some (3 * 100)) false [wide_doc] (repeat 0%N 400) 0 76
+  <> Ok (runes_bytes wide_doc 76).
+Proof. vm_compute. discriminate. Qed.
+Print Assumptions C02_find_offset_window3_refuted.
+
+(** ---- non-vacuity / sanity on concrete inputs *)
+Example ex_window_now_ok :
+  find_offset_corpus rune_offset_frequency content_window false [wide_doc] (repeat 0%N 400) 0 76
+  = Ok (runes_bytes wide_doc 76).
+Proof. vm_compute. reflexivity. Qed.
+
+(* a corpus whose first document ends in a truncated lead byte and whose second starts with a
+   continuation byte: every rune offset of both documents translates correctly (fix 0521217) *)
+Definition ex_docs : list (list N) := [repeat 120%N 100 ++ [201]%N; [169; 32; 110; 101; 101]%N].
+Example ex_cross_document :
+  forallb (fun r => match find_offset_corpus rune_offset_frequency content_window false ex_docs (repeat 0%N 400) 1 r with
+                    | Ok b => b =? runes_bytes (nth 1 ex_docs []) r | _ => false end) (seq 0 6) = true.
+Proof. vm_compute. reflexivity. Qed.
+
+Definition ex_cands : list cand :=
+  [ {| c_fn := false; c_off := 4; c_sz := 3 |}; {| c_fn := false; c_off := 2; c_sz := 3 |};
+    {| c_fn := true; c_off := 1; c_sz := 2 |}; {| c_fn := false; c_off := 2; c_sz := 5 |};
+    {| c_fn := false; c_off := 7; c_sz := 1 |} ].
+Example ex_gather : gather 9 ex_cands =
+  [ {| c_fn := true; c_off := 1; c_sz := 2 |}; {| c_fn := false; c_off := 2; c_sz := 5 |};
+    {| c_fn := false; c_off := 7; c_sz := 1 |} ].
 Proof. reflexivity. Qed.
-Print Assumptions C02_placeholder_bringup.
+
+(* "aa" in "aaaaa": occurrences at 0,1,2,3; leftmost non-overlapping = 0,2 *)
+Example ex_leftmost :
+  let p := [97; 97]%N in let c := [97; 97; 97; 97; 97]%N in
+  all_occ (mt_exact p) c 0 <> [] /\ map c_off (scan (mt_exact p) c 0 0) = [0; 2] /\
+  map c_off (all_occ (mt_exact p) c 0) = [0; 1; 2; 3].
+Proof. simpl. repeat split; discriminate || reflexivity. Qed.
+
+Example ex_engine : engine_matches [ {| c_fn := false; c_off := 0; c_sz := 0 |}; {| c_fn := false; c_off := 1; c_sz := 2 |} ].
+Proof. split; repeat constructor; simpl; lia. Qed.
+
+Example ex_table : make_map 100 [0; 100; 205; 305; 410] = [(200, 205); (400, 410)].
+Proof. reflexivity. Qed.
